@@ -22,10 +22,10 @@ Definition classification : list (string * string * string * klass * string * st
   ("myst_parser/mdit_to_docutils/base.py", "DocutilsRenderer._render_finalise", "self.sphinx_env.metadata.setdefault",
    WriteBeforeRead, "sphinx-metadata", "slot of the current document in env.metadata (keyed by docname)");
   ("myst_parser/mdit_to_docutils/base.py", "DocutilsRenderer._render_finalise", "self.document.settings.myst_footnote_transition",
-   WriteBeforeRead, "footnote-settings",
-   "the settings object belongs to the document being parsed (one per publisher / per Sphinx document); read by the footnote transforms of the same document afterwards");
+   Leak, "shared-settings",
+   "OPEN (round 4): the per-document value is written onto document.settings under the name of the global option myst_footnote_transition; when ONE settings object is shared by several docutils publish calls, create_myst_config of the next document reads it back as the global value before that document writes its own");
   ("myst_parser/mdit_to_docutils/base.py", "DocutilsRenderer._render_finalise", "self.document.settings.myst_footnote_sort",
-   WriteBeforeRead, "footnote-settings", "see myst_footnote_transition");
+   Leak, "shared-settings", "OPEN (round 4): see myst_footnote_transition");
   ("myst_parser/mocking.py", "MockIncludeDirective.run", "self.document.settings.record_dependencies.add", WriteBeforeRead, "include",
    "dependency list of the document being parsed (settings object of the current document)");
   ("myst_parser/mocking.py", "MockRSTParser.parse", "roles._roles['']", RestoredInFinally, "default-role",
@@ -44,6 +44,12 @@ Definition classification : list (string * string * string * klass * string * st
   ("myst_parser/sphinx_ext/main.py", "setup_sphinx", "*", NotInParse, "-", "extension set-up, run once per Sphinx application");
   ("myst_parser/sphinx_ext/main.py", "create_myst_config", "*", NotInParse, "-", "builder-inited handler, once per build, before any document is read");
   ("myst_parser/sphinx_ext/mathjax.py", "override_mathjax", "*", NotInParse, "-", "builder-inited handler, once per build")
+].
+
+(* cells whose Leak classification is an open finding (reproduced by the search on every run) *)
+Definition open_leaks : list string := [
+  "self.document.settings.myst_footnote_transition";
+  "self.document.settings.myst_footnote_sort"
 ].
 
 Definition entry_matches (w : gwrite) (e : string * string * string * klass * string * string) : bool :=
@@ -194,8 +200,22 @@ Definition trace (cells : list string) (h : list nat) : list (list (cstate nat n
 (* every attribute that some renderer method reads before writing it is Fresh after construction + setup_render,
    whatever an earlier render left in it *)
 Definition state_reads : list string := map snd reads_before_write.
+
+(* attributes that belong to the parser object, not to one render: assigned by __init__ only, by design *)
+Definition ctor_scoped : list (string * string) := [
+  ("md", "the MarkdownIt parser the renderer belongs to: a constructor constant");
+  ("rules", "the dispatch table render_<type> -> bound method, built once from the class: a constructor constant");
+  ("_inventories", "inventories loaded lazily for the configuration the parser object was created with (create_md_parser binds one MdParserConfig to the object): a memo of that configuration, not per-render state")
+].
+Definition is_ctor_scoped (a : string) : bool := existsb (fun e => String.eqb a (fst e)) ctor_scoped.
+
+(* a parser object may render several documents (md.render(t1); md.render(t2)): every other attribute that a method reads
+   before writing must be assigned by setup_render ALONE, whatever earlier renders (and __init__) left in the instance *)
 Definition reset_ok (st : rstate) : bool :=
-  forallb (fun a => is_fresh (setup_render_src (init_src st) a)) state_reads.
+  forallb (fun a => is_ctor_scoped a || is_fresh (setup_render_src st a)) state_reads.
+(* the constructor-scoped attributes are assigned by __init__ *)
+Definition ctor_ok (st : rstate) : bool :=
+  forallb (fun e => is_fresh (init_src st (fst e))) ctor_scoped.
 
 (* merge_file_level on named objects: parameters are objects 0, 1, 2 ...; a copy or a new value is a new object *)
 Fixpoint mlookup (v : string) (env : list (string * nat)) : option nat :=
